@@ -17,6 +17,7 @@ use std::collections::{HashMap, VecDeque};
 use std::sync::atomic::{AtomicUsize, Ordering};
 use std::sync::Mutex;
 use xplore::*;
+static ACCESSOR_INCONSISTENT: std::sync::atomic::AtomicBool = std::sync::atomic::AtomicBool::new(false);
 
 #[derive(Clone, Copy, Debug, PartialEq)]
 pub struct Probe(u32);
@@ -205,7 +206,9 @@ fn explore_shape_masked(ends: &[f64], with_nan: bool, mask: &[u64], abort: &dyn 
                 machinery(&format!("engine B: replaying a stored history did not reproduce its canonical state: {again:?} vs {k:?}"));
             }
             if nk.0 + nk.1 != pw.segments.len() - 1 {
-                machinery("engine B: accessor returned an inconsistent state (offset + ahead != front length)");
+                // the accessor no longer describes the slice the evaluator was given: exploration goes on (a wrong answer found
+                // this way is still a concrete replayable history), but a run without a violation cannot be called a fixpoint
+                ACCESSOR_INCONSISTENT.store(true, std::sync::atomic::Ordering::Relaxed);
             }
             if !x.is_nan() {
                 if y.to_bits() != direct[qi].to_bits() {
@@ -461,6 +464,9 @@ fn main() {
     };
     if samples.is_empty() {
         samples.push(json!({"ends": fjs(&sl[0]), "note": "single-state shape"}));
+    }
+    if violation.is_none() && ACCESSOR_INCONSISTENT.load(std::sync::atomic::Ordering::Relaxed) {
+        machinery("engine B: accessor returned an inconsistent state (offset + ahead != front length) and no wrong answer was found");
     }
     // stateright cross-check
     let mut sr_json = json!({"run": false, "reason": "thorough tier only"});
